@@ -22,6 +22,8 @@ func init() {
 		},
 		Run: runC10,
 		Controls: []Control{
+			{Name: "withdrawal-skipped-when-something-was-queued", File: "protocols/bgp/server/update_sender.go", Old: "\tu.toSendMu.Lock()\n\tu._dequeue(pfx, p)\n\tu.sendMu.Lock()\n\tu.toSendMu.Unlock()\n", New: "\tu.toSendMu.Lock()\n\tu._dequeue(pfx, p)\n\tif len(u.toSend) > 0 {\n\t\tu.toSendMu.Unlock()\n\t\treturn true\n\t}\n\tu.sendMu.Lock()\n\tu.toSendMu.Unlock()\n", Expect: "withdrawal-always-written"},
+			{Name: "clients-told-about-the-callers-path", File: "routingtable/adjRIBOut/adj_rib_out.go", Old: "\t\t\t\tsentPath = sp\n", New: "", Expect: "withdrawal-carries-released-identifier"},
 			{Name: "known-path-identifier-not-counted", File: "routingtable/adjRIBOut/path_id_manager.go", Old: "\t\tid := fm.idByPath[hash]\n\t\tfm.ids[id]++\n\t\treturn id, nil\n", New: "\t\tid := fm.idByPath[hash]\n\t\treturn id, nil\n", Expect: "refcount-follows-users"},
 			{Name: "dequeue-filters-without-storing", File: "protocols/bgp/server/update_sender.go", Old: "\tqueued.pfxs = remaining\n}", New: "\t_ = remaining\n}", Expect: "dequeue-stores-the-filtered-list"},
 			{Name: "not-found-decided-by-pointer-identity", File: "routingtable/adjRIBOut/adj_rib_out.go", Old: "\t\tif !found {\n\t\t\treturn false\n\t\t}\n", New: "\t\tif !found || sentPath == p {\n\t\t\treturn false\n\t\t}\n", Expect: "table-removal-is-withdrawn"},
@@ -105,6 +107,8 @@ func runC10(c *core.Ctx) {
 	// the withdrawal is skipped on the "identifier not found" branch: identifiers must live as long as their users (shared with C11)
 	refcountFollowsUsers(c, "refcount-follows-users")
 	dequeueStoresResult(c)
+	withdrawalAlwaysWritten(c)
+	withdrawalCarriesTheReleasedIdentifier(c)
 	p := c.P
 	withdrawThenAnnounce(c)
 	const typ = "UpdateSender"
